@@ -16,7 +16,7 @@ import (
 
 func init() {
 	Registry["C16"] = Set{
-		Explanation: "Decides structural clauses of hostile-input safety: B1 recover barriers — edf.Decode and the receive worker install a deferred recover (the worker's closes only its connection), and every goroutine started in net/proto, net/handshake and node's network code either has such a barrier or reaches peer-byte handling only through the functions proved by B2; B2 code that runs without a barrier proves its bounds: in the frame cutter the success return is dominated by 'declared length >= 8' and 'buffered >= declared length' and cuts the buffer to the declared length, the header read is dominated by a length guard whose bound is >= 6, every constant index the serve loop applies to a received frame is < 8, the handshake reader indexes only below its guard; the one relational site (tail = buf.B[l:total]) is accepted only in its recognised shape; B3 no length read from the wire reaches an allocator (reflect.MakeSlice/MakeMapWithSize/ArrayOf, make, Buffer.Allocate/Extend) without a dominating comparison against the remaining input or a constant cap whose failing edge leaves; B4 the handshake reader caps the declared message size and arms a read deadline before every read when a timeout is configured; the frame cutter compares the declared length with the node's max message size before it continues buffering. Added while probing: B1 follows dynamic calls through the VTA call graph. B5 pooled objects across calls — when a function may release a pooled buffer it received as a parameter (directly, through a callee resolved statically or by the VTA call graph, or deferred), no caller releases or re-dispatches the same object on a path compatible with the callee's releasing path; paths are correlated through the nil-ness of the callee's error result (a double release hands one object to two later users: frames of unrelated connections overwrite each other, a request is presented twice or answered with another request's reference). B3p the length of an array travels inside the folded TYPE: every reflect.New / MakeSlice of a type unfolded from the packet is dominated by the proportion predicate (n*T.Size() against the bytes left), directly or because getDecoder applies it to every type it unfolds; decoders unfolded from a local encoder's prefix are trusted. B6 the decoder that picks the next decoder from the packet's bytes compares a nesting counter with a constant before the dispatch (a stack overflow is fatal, no recover catches it). B1h every exported handshake entry point that reads a peer message turns a panic into its error result (the acceptor's goroutine has no recover and works on decoded VALUES). B3q integers of a handshake message that size local resources (ConnectionOptions) are checked against a lower and an upper constant bound before they are taken over. B7 = C11.E12 for hostile input: no counted element loop over elements that consume no input.",
+		Explanation: "Decides structural clauses of hostile-input safety: B1 recover barriers — edf.Decode and the receive worker install a deferred recover (the worker's closes only its connection), and every goroutine started in net/proto, net/handshake and node's network code either has such a barrier or reaches peer-byte handling only through the functions proved by B2; B2 code that runs without a barrier proves its bounds: in the frame cutter the success return is dominated by 'declared length >= 8' and 'buffered >= declared length' and cuts the buffer to the declared length, the header read is dominated by a length guard whose bound is >= 6, every constant index the serve loop applies to a received frame is < 8, the handshake reader indexes only below its guard; the one relational site (tail = buf.B[l:total]) is accepted only in its recognised shape; B3 no length read from the wire reaches an allocator (reflect.MakeSlice/MakeMapWithSize/ArrayOf, make, Buffer.Allocate/Extend) without a dominating comparison against the remaining input or a constant cap whose failing edge leaves; B4 the handshake reader caps the declared message size and arms a read deadline before every read when a timeout is configured; the frame cutter compares the declared length with the node's max message size before it continues buffering. Added while probing: B1 follows dynamic calls through the VTA call graph. B5 pooled objects across calls — when a function may release a pooled buffer it received as a parameter (directly, through a callee resolved statically or by the VTA call graph, or deferred), no caller releases or re-dispatches the same object on a path compatible with the callee's releasing path; paths are correlated through the nil-ness of the callee's error result (a double release hands one object to two later users: frames of unrelated connections overwrite each other, a request is presented twice or answered with another request's reference). B3p the length of an array travels inside the folded TYPE: every reflect.New / MakeSlice of a type unfolded from the packet is dominated by the proportion predicate (n*T.Size() against the bytes left), directly or because getDecoder applies it to every type it unfolds; decoders unfolded from a local encoder's prefix are trusted. B6 the decoder that picks the next decoder from the packet's bytes compares a nesting counter with a constant before the dispatch (a stack overflow is fatal, no recover catches it). B1h every exported handshake entry point that reads a peer message turns a panic into its error result (the acceptor's goroutine has no recover and works on decoded VALUES). B3p also: a decoder taken from the connection cache of unfolded types is returned only behind the predicate (the check depends on the message, not only on the type). B5i = C12.R3i: no buffer is released twice inside one function, through phi nodes and flag-guarded releases (the pool is shared by all connections: malformed traffic on one corrupts frames of the others). B3q integers of a handshake message that size local resources (ConnectionOptions) are checked against a lower and an upper constant bound before they are taken over. B7 = C11.E12 for hostile input: no counted element loop over elements that consume no input.",
 		NotDecided: []string{
 			"re-encode equality of successfully decoded values",
 			"CPU time of decoding, effects on other connections' throughput",
@@ -30,6 +30,7 @@ func init() {
 func runC16(p *load.Program, r *core.Report) {
 	c16Barriers(p, r)
 	pooledRelease(p, r, "C16.B5 no-double-release-across-calls", "C16.B5", 15, "buffer", func(*ssa.Function) bool { return true })
+	pooledIntra(p, r, "C16.B5i buffer-released-once", "C16.B5i", 12, "buffer", func(*ssa.Function) bool { return true })
 	c16Bounds(p, r)
 	c16Alloc(p, r)
 	c16PeerTypedAlloc(p, r)
@@ -1114,6 +1115,52 @@ func c16PeerTypedAlloc(p *load.Program, r *core.Report) {
 					okAll = false
 				}
 			})
+			// a decoder taken from the per-connection cache of unfolded types (decodeType stores what it
+			// unfolds there, keyed by the fold) is as peer-typed as a fresh one: the check depends on
+			// the bytes left in THIS message, so "checked when it was unfolded" does not hold
+			if calls > 0 {
+				eachInstr(f, func(in ssa.Instruction) {
+					rt, ok := in.(*ssa.Return)
+					if !ok || len(rt.Results) == 0 {
+						return
+					}
+					ta, ok := rt.Results[0].(*ssa.TypeAssert)
+					if !ok {
+						return
+					}
+					ex, ok := ta.X.(*ssa.Extract)
+					if !ok {
+						return
+					}
+					ld, ok := ex.Tuple.(*ssa.Call)
+					if !ok {
+						return
+					}
+					if m, okm := syncMapCall(ld.Common()); !okm || m != "Load" {
+						return
+					}
+					if _, path, okp := fieldPath(ld.Common().Args[0]); !okp || len(path) == 0 || path[len(path)-1] != "Cache" {
+						return
+					}
+					guarded := false
+					eachInstr(f, func(x ssa.Instruction) {
+						cc, ok := x.(*ssa.Call)
+						if !ok || staticCallee(cc.Common()) != pred {
+							return
+						}
+						b, path, okp := fieldPath(cc.Common().Args[0])
+						if okp && len(path) == 1 && path[0] == "Type" && canon(b) == canon(ta) {
+							if t, _, complete := boolEdges(cc); complete && edgesDominate(t, in) {
+								guarded = true
+							}
+						}
+					})
+					if !guarded {
+						okAll = false
+						r.Bad(rule, "C16.B3p|"+fname(f)+"|cached-decoder", fname(f), p.Pos(in.Pos()), "a decoder of a peer-declared type taken from the connection's cache is returned only behind the proportion predicate", "returned unchecked: the first (refused) message primes the cache, the second one gets the decoder of [2^27]uint8 without any relation to its 13 bytes")
+					}
+				})
+			}
 			if calls > 0 && okAll {
 				checkedSource[f] = true
 			}
